@@ -162,8 +162,12 @@ pub fn gen_color(rng: &mut Rng, raster_safe: bool) -> ColorSpec {
 }
 
 pub fn gen_shape(rng: &mut Rng, allow_panicky: bool) -> ShapeSpec {
-    let n = if allow_panicky { N_SHAPES } else { N_SHAPES - 1 };
-    ShapeSpec(rng.below(n as u64) as u8)
+    // where callbacks that may panic are allowed, they are common: a user callback failing
+    // part-way through a render is the one way a render is left early
+    if allow_panicky && rng.chance(1, 4) {
+        return ShapeSpec(SHAPE_PANICKY);
+    }
+    ShapeSpec(rng.below((N_SHAPES - 1) as u64) as u8)
 }
 
 thread_local! {
